@@ -91,12 +91,14 @@ def c01_corpus(tier, seed):
         entries += entries_for(g)
     # small-scope enumeration (seed independent) through the host TUs
     if tier == 'quick':
-        small = gengram.small_grammars(stride=37, limit=160, max_rules=3, max_rhs=2)
-        nrand = 40
+        small = gengram.small_grammars(stride=17, limit=160, max_rules=3, max_rhs=2)
+        small += gengram.small_grammars(stride=499, limit=160, nts=('S', 'A', 'B'), ts=('a', 'b'), max_rules=4, max_rhs=2)
+        nrand = 120
     else:
         small = gengram.small_grammars(stride=5, limit=2500, max_rules=3, max_rhs=2)
         small += [g for g in gengram.small_grammars(stride=211, limit=1500, max_rules=4, max_rhs=2)]
-        nrand = 400
+        small += gengram.small_grammars(stride=397, limit=3000, nts=('S', 'A', 'B'), ts=('a', 'b'), max_rules=4, max_rhs=2)
+        nrand = 600
     for g in small:
         g.name = 's' + g.name
         try:
@@ -104,7 +106,7 @@ def c01_corpus(tier, seed):
         except ValueError:
             pass
     for i in range(nrand):
-        g = gengram.random_grammar(rng, 'r%d_%d' % (seed, i), n_nt=rng.choice([2, 3, 4]), n_t=rng.choice([2, 3]), max_rhs=3)
+        g = gengram.random_grammar(rng, 'r%d_%d' % (seed, i), n_nt=rng.choice([2, 3, 4]), n_t=rng.choice([2, 3]), max_rhs=3, p_empty=rng.choice([0.1, 0.25]))
         try:
             entries.append(pipeline.host_entry(g, 0))
         except ValueError:
@@ -337,10 +339,14 @@ def check_C02(tier, seed):
         raise Infra('the specification itself fails its oracles: ' + json.dumps(res.design_errors)[:3000])
     # domain: no reduce/reduce conflict (behaviour undefined there); S/R grammars are in (the tree is then the resolved one)
     domain = {e.gid for e in entries if e.gid in res.conflicts and res.conflicts[e.gid]['rr'] == 0}
-    judge_traces(out, entries, res, {'functor', 'tree', 'extra:call', 'extra:tval', 'extra:dcall', 'extra:ilist', 'threw'}, domain)
+    # 'table': the real table prescribes a reduction / shift the canonical table does not (or vice versa) on an executed
+    # input - a functor would run for a node that is not part of the derivation (or a node's functor would not run)
+    judge_traces(out, entries, res, {'functor', 'tree', 'table', 'extra:call', 'extra:tval', 'extra:dcall', 'extra:ilist', 'threw'}, domain)
+    out.violations += helpers_through_parser(vlib.scratch('C02hp'))       # rules whose functors are the documented helpers
     accepted = sum(1 for e in entries for t in e.traces if t['ok'])
     out.coverage = base_coverage(res, {
         'grammars': len(entries), 'grammars_in_domain': len(domain), 'accepted_inputs_validated': accepted,
+        'helper_functor_rules': 'harness/helpers_parse.cpp',
         'functor_calls_validated': res.event_kinds.get('call', 0), 'term_values_validated': res.event_kinds.get('tval', 0),
         'bounds': {'L_all_inputs': L, 'long_sentences_max_tokens': 40 if tier == 'quick' else 200},
         'samples': sample_traces([e for e in entries if e.gid in domain and any(t['ok'] for t in e.traces)], 3), 'exhaustive': False})
@@ -363,6 +369,19 @@ def check_C09(tier, seed):
             entries.append(pipeline.host_entry(g, 0))
         except ValueError:
             pass
+    # generated lexers over multi-character terms (term sets the automaton layer of C04 finds correct): an 'Unexpected
+    # character' must appear exactly where NO term matches
+    import lx as lxl
+    lex_entries = [pipeline.lex_entry('c09lex%d' % i, lxl.FAMILIES[i]) for i in ((0, 2, 5) if tier == 'quick' else (0, 1, 2, 3, 5, 6, 12))]
+    for el in lex_entries:
+        alpha = sorted({b for t in el.lexterms for b in ([t[1]] if t[0] == 'C' else t[1]) if 32 < b < 127 and chr(b) not in '[]()*+?|{}\\^-.'} | {ord('i'), ord('1'), ord('+'), ord('=')})[:7]
+        ins = []
+        for sx in gram.all_strings(alpha + [32, ord('?')], 4 if tier == 'quick' else 5):
+            ins.append(sx)
+            if len(ins) >= (1500 if tier == 'quick' else 12000):
+                break
+        pipeline.add_jobs(el, ins, verbose=False)
+        pipeline.add_jobs(el, ins[::5], verbose=True)
     unknown = [ord('?'), 32, 0]
     for ei, e in enumerate(entries):
         if ei % (7 if tier == 'quick' else 2) == 0:
@@ -375,6 +394,7 @@ def check_C09(tier, seed):
                 m = list(s); m[rng.randrange(len(m))] = rng.choice([ord(c) for c in e.g.ts] + [ord('?')])
                 pipeline.add_jobs(e, [m], tag='m', verbose=False)
                 pipeline.add_jobs(e, [s[:rng.randrange(len(s))]], tag='p', verbose=False)
+    entries += lex_entries
     res, work = prun.run(entries, 'C09', design_L=L if tier == 'quick' else 5, design_ws=unknown[:2], do_product=True,
                          tlc_procs=4 if tier == 'quick' else 8, tlc_workers=4 if tier == 'quick' else 2)
     if res.design_errors:
@@ -486,7 +506,9 @@ def check_C08(tier, seed):
     if res.design_errors:
         raise Infra('the specification itself fails its invariants: ' + json.dumps(res.design_errors)[:3000])
     domain = {e.gid for e in entries if e.gid in res.conflicts and res.conflicts[e.gid]['rr'] == 0}
-    judge_traces(out, entries, res, {'recovery', 'verdict', 'extra:msg', 'extra:recto', 'extra:consume', 'extra:shift', 'tree'}, domain)
+    # every grammar here has error rules: a deviation of any step (a recognise / reduce / functor call that should follow a
+    # recovery and does not happen, ...) is a deviation from the documented recovery behaviour
+    judge_traces(out, entries, res, {'recovery', 'verdict', 'extra', 'tree', 'step', 'functor', 'report', 'table'}, domain)
     recovered = sum(1 for e in entries for t in e.traces if t['ok'] and any(ev[0] == 'L' and 'Syntax error' in ev[1] for ev in t['events']))
     out.coverage = base_coverage(res, {
         'grammars': len(entries), 'grammars_in_domain': len(domain), 'parses_that_recovered_and_succeeded': recovered,
@@ -1123,7 +1145,7 @@ def check_C04(tier, seed):
     res = None
     if entries:
         res, work2 = prun.run(entries, 'C04drv', design_L=None, do_product=False, tlc_procs=4 if tier == 'quick' else 8, tlc_workers=4 if tier == 'quick' else 2)
-        judge_traces(out, entries, res, {'step', 'functor', 'report', 'position', 'verdict', 'tree', 'extra', 'threw'}, None)
+        judge_traces(out, entries, res, {'table', 'step', 'functor', 'report', 'position', 'verdict', 'tree', 'extra', 'threw'}, None)
     out.violations = out.violations[:12]
     if k1_cases:
         ex = '; '.join('%s lexes %r as %s' % (t, c['input'], c['real_longest_match']) for t, c in k1_cases[:3])
@@ -1911,6 +1933,23 @@ def check_C15(tier, seed):
 
 
 # ======================================================================================= C19
+def helpers_through_parser(work):
+    """rules whose functors are the documented helper objects: the parse result must be the documented pick"""
+    exe = os.path.join(work, 'helpers_parse')
+    r = subprocess.run(['g++', '-std=c++17', '-I' + os.path.join(vlib.REPO, 'include'), os.path.join(vlib.HARNESS, 'helpers_parse.cpp'), '-o', exe], capture_output=True, text=True, timeout=900)
+    if r.returncode != 0:
+        return [{'summary': {'class': 'a grammar using the documented helper functors does not compile', 'compiler_says': r.stderr[:500]}, 'kind': 'helpers'}]
+    rr = subprocess.run(['bash', '-c', 'ulimit -s unlimited; exec ' + exe], capture_output=True, text=True, timeout=300)
+    bad = []
+    for ln in rr.stdout.splitlines():
+        p = ln.split()
+        if p and p[0] == 'HP' and p[-1] != p[-2]:
+            bad.append({'summary': {'class': 'helper functor in a rule: the parse result is not the documented pick', 'helper': ' '.join(p[1:-2]), 'expected': p[-2], 'got': p[-1]}, 'kind': 'helpers'})
+    if 'HP' not in rr.stdout:
+        bad.append({'summary': {'class': 'helper-functor parser program died', 'exit': rr.returncode}, 'kind': 'helpers'})
+    return bad
+
+
 def check_C19(tier, seed):
     import gen_helpers
     out = Outcome()
@@ -1950,8 +1989,11 @@ def check_C19(tier, seed):
                 nchecks += int(ln.split()[2])
         if 'HDONE' not in rr.stdout:
             out.violations.append({'summary': {'class': 'helper functor test program died', 'exit': rr.returncode}, 'kind': 'helpers'})
+    hp = helpers_through_parser(work)
+    out.violations += hp
     out.violations = out.violations[:12]
     out.coverage = {'states': int(r.distinct), 'transitions': int(max(r.generated, 1)), 'traces_validated_against_impl': 0,
+                    'through_the_parser': 'harness/helpers_parse.cpp: _e1.._e9 on a 9-symbol rule, construct<W,1..4>, push_back<1,3>, emplace_back<3,1>, create, val',
                     'cases_enumerated_by_TLC': len(r.lines.get('HCASE', [])), 'cases_replayed': len(cases), 'instantiations(cases x value categories)': total, 'assertions_evaluated': nchecks,
                     'value_categories': ['lvalue', 'rvalue', 'move-only types'], 'arity': '1..9, every valid position / ordered pair',
                     'samples': cases[:3], 'exhaustive': True}
